@@ -329,7 +329,15 @@ def _ocaml_build_locked(ctx, d, extract_v, main_ml, extra_ml=(), model_vos=()):
     drv = os.path.join(d, "driver")
     if os.path.exists(drv) and os.path.exists(stamp_file) and open(stamp_file).read() == stamp:
         return drv
-    rc, out = sh(["coqc", "-Q", COQ, "OxiVerif", "-o", os.path.join(d, os.path.basename(extract_v) + "o"), srcs[0]], cwd=d, timeout=900)
+    ex_cmd = ["coqc", "-Q", COQ, "OxiVerif", "-o", os.path.join(d, os.path.basename(extract_v) + "o"), srcs[0]]
+    rc, out = sh(ex_cmd, cwd=d, timeout=900)
+    if rc != 0 and "inconsistent assumptions" in out and model_vos and not TAG:
+        # stale compiled files (make saw nothing to do): rebuild the model files from clean and extract again
+        log("extraction: inconsistent .vo files, rebuilding the model files from clean")
+        sh("find . -name '*.vo' -o -name '*.vok' -o -name '*.vos' -o -name '*.glob' | xargs rm -f", cwd=COQ)
+        rc2, out2 = coq_make(list(model_vos))
+        if rc2 == 0:
+            rc, out = sh(ex_cmd, cwd=d, timeout=900)
     if rc != 0:
         raise CheckFailure("extraction failed:\n" + out[-3000:])
     mls = ["conv.ml"] + list(extra_ml) + [main_ml]
